@@ -48,3 +48,19 @@ Theorem c01_ingest_evidence : forall js j i,
     (pred_types g ps <> [] -> In (mset_of (pred_types g ps)) (ins info)).
 Proof. exact ingest_evidence. Qed.
 Print Assumptions c01_ingest_evidence.
+
+(** the rule-based reading of the execution semantics (Puml/ExecRel.v) and the adequacy of the enumerator *)
+From V Require Import Puml.ExecRel Puml.ExecRelProofs Puml.Check Puml.CheckProofs.
+Theorem c01_runs_seq_iff : forall k d f, In f (runs_seq k d) <-> ExecSeq k d f.
+Proof. exact runs_seq_iff. Qed.
+Print Assumptions c01_runs_seq_iff.
+
+Theorem c01_accepts_b_rel : forall k d j, accepts_b k d j = true <-> AcceptsCanon k d j.
+Proof. exact accepts_b_rel. Qed.
+Print Assumptions c01_accepts_b_rel.
+
+(** a clean verdict of the adaptive check used by the harness means every job is accepted for some loop bound *)
+Theorem c01_rejected_adaptive_sound : forall kmax cap d js,
+  rejected_adaptive kmax cap d js = ([], []) -> forall j, In j js -> exists k', accepts_b k' d j = true.
+Proof. exact rejected_adaptive_sound. Qed.
+Print Assumptions c01_rejected_adaptive_sound.
